@@ -221,13 +221,18 @@ def rule_key(ctx):
     for s in walk_local(add.node):
         if isinstance(s, ast.Assign) and isinstance(s.value, ast.List) and len(s.value.elts) == 3:
             entry = s
-    ok = entry is not None and [norm(e) for e in entry.value.elts] == [ps[1], 'count', ps[2]]
-    ctx.ob('C09.key', f'{mod.name}:TaskQueue.add:entry-shape', ok, 'entry must be [prio, count, task]', add.node, mod)
+    cnt = None
+    for s_ in walk_local(add.node):
+        if isinstance(s_, ast.Assign) and isinstance(s_.value, ast.Call) and norm(s_.value.func) == 'next' and isinstance(s_.targets[0], ast.Name) \
+                and s_.value.args and U.is_self_attr(s_.value.args[0], C):
+            cnt = s_.targets[0].id
+    ok = entry is not None and cnt is not None and [norm(e) for e in entry.value.elts] == [ps[1], cnt, ps[2]]
+    ctx.ob('C09.key', f'{mod.name}:TaskQueue.add:entry-shape', ok, 'entry must be [prio, count, task] with count drawn from the sequence', add.node, mod)
     src = full(add.node)
-    ok = f'count = next(self.{C})' in src and entry is not None and f'heapq.heappush(self.{H}, {norm(entry.targets[0])})' in src and \
+    ok = cnt is not None and entry is not None and f'heapq.heappush(self.{H}, {norm(entry.targets[0])})' in src and \
         f'self.{F}[{ps[2]}] = {norm(entry.targets[0])}' in src
     ctx.ob('C09.key', f'{mod.name}:TaskQueue.add:sequence', ok, 'count is drawn from the sequence and the same entry is indexed and pushed', add.node, mod)
-    ok = U.before(src, f'if {ps[2]} in self.{F}: self.remove({ps[2]})', f'count = next(self.{C})')
+    ok = U.before(src, f'if {ps[2]} in self.{F}: self.remove({ps[2]})', f'{cnt} = next(self.{C})')
     ctx.ob('C09.key', f'{mod.name}:TaskQueue.add:reinsert', ok, 're-inserting removes the old entry first and draws a fresh count (most recent)', add.node, mod)
     # counter writers
     writers = []
